@@ -409,9 +409,10 @@ func (st *Runtime) executeYieldBlock(block *BlockNode, blockParam, yieldParam *B
 
 func (st *Runtime) executeList(list *ListNode) (returnValue reflect.Value) {
 	inNewScope := false // to use just one scope for multiple actions with variable declarations
+	verifNormal := false // set when the list ends normally (a deferred hook cannot tell a panic otherwise)
 	if verifOn {
 		vt(st, "list.begin")
-		defer func() { vt(st, "list.end") }()
+		defer func() { vt(st, "list.end", verifNormal) }()
 	}
 
 	// a nested list that executed no {{return}} must not clobber the value of an earlier one
@@ -595,6 +596,9 @@ func (st *Runtime) executeList(list *ListNode) (returnValue reflect.Value) {
 		}
 	}
 
+	if verifOn {
+		verifNormal = true
+	}
 	return returnValue
 }
 
